@@ -1,7 +1,10 @@
+//go:debug randseednop=0
+//go:debug randautoseed=0
 package simh
 
 import (
 	"encoding/json"
+	mrand "math/rand"
 	"fmt"
 	"os"
 	"runtime"
@@ -109,6 +112,7 @@ func RunOne(t *testing.T, sc *scen.Scenario, job *Job, seed uint64, tape []uint3
 	res := &scen.Result{Seed: seed, Scenario: sc.Name, Prop: job.Prop}
 	t.Run(fmt.Sprintf("%s-%d", sc.Name, seed), func(t *testing.T) {
 		cryptotest.SetGlobalRandom(t, seed)
+		mrand.Seed(int64(seed)) // gokrb5 shuffles KDC lists with the global math/rand source
 		dir := t.TempDir()
 		t.Setenv("TMPDIR", dir)
 		defer func() {
